@@ -12,7 +12,8 @@ CONSTANTS MaxGroups, MaxAlts, Names,      \* CNF bound; Names: set of tag names 
           Universe,                       \* sequence of tags: truth tables range over all its subsets
           V2Depth, V2Operands, NB,        \* v2 family (as in TagExpr_MC)
           Styles,                         \* rendering styles checked per formula (subset of 1..NStyles)
-          EmitMod                         \* emit the formulas whose hash is 0 modulo EmitMod (1 = all)
+          EmitMod,                        \* emit the formulas whose hash is 0 modulo EmitMod (1 = all)
+          HistLen                         \* histories of up to HistLen Configuration constructions in one process (0 = none)
 
 SS == SubsetSeq(Universe)
 
@@ -66,18 +67,43 @@ Trees(d) == IF d = 0 THEN {Lit(n) : n \in V2Operands}
                    \cup {Bin(o, l, r) : o \in {"and", "or"}, l \in S, r \in Trees(0)}
                    \cup {Bin(o, l, r) : o \in {"and", "or"}, l \in Trees(0), r \in S}
 AllTrees == Trees(V2Depth)
+\* '@' on every operand and no blank inside the parentheses: '@' directly after "(" and the name directly before ")"
+RECURSIVE FullAt(_)    \* every operator application parenthesised: not (@a), (@a or @b)
+FullAt(x) == CASE x.op = "lit" -> <<"@">> \o x.name
+               [] x.op = "not" -> <<"n","o","t"," ">> \o Paren(FullAt(x.kids[1]))
+               [] OTHER -> Paren(FullAt(x.kids[1]) \o Sp \o Chars(Tok(x.op)) \o Sp \o FullAt(x.kids[2]))
+RECURSIVE MinAt(_)     \* minimal parentheses: (@a or @b) and not @x-y
+MinAt(x) == CASE x.op = "lit" -> <<"@">> \o x.name
+              [] x.op = "not" -> <<"n","o","t"," ">> \o (IF x.kids[1].op \in {"lit", "not"} THEN MinAt(x.kids[1]) ELSE Paren(MinAt(x.kids[1])))
+              [] OTHER -> LET l == x.kids[1]  r == x.kids[2]
+                              ls == IF Prec(l.op) < Prec(x.op) THEN Paren(MinAt(l)) ELSE MinAt(l)
+                              rs == IF Prec(r.op) <= Prec(x.op) THEN Paren(MinAt(r)) ELSE MinAt(r)
+                          IN ls \o Sp \o Chars(Tok(x.op)) \o Sp \o rs
 Bucket(x) == (Len(Min(x)) + 3 * Len(Full(x))) % NB
 V2Inputs(x) == {TextIn(Min(x)), TextIn(Full(x)), TextIn(WithAt(x)),
-                ListIn(<<Min(x)>>), ListIn(<<Full(x), <<"@", "b">> >>), ListIn(<<<<"a">>, Min(x)>>)}
+                ListIn(<<Min(x)>>), ListIn(<<Full(x), <<"@", "b">> >>), ListIn(<<<<"a">>, Min(x)>>),
+                TextIn(FullAt(x)), TextIn(MinAt(x)), ListIn(<<FullAt(x), MinAt(x)>>)}
+
+\* ---------------------------------------------------------------- histories of Configuration constructions
+HProtos == {"v1", "v2", "strict", "auto_detect", "default"}
+HInputs == { ListIn(<< <<"a", ",", "@", "b">>, <<"-", "n", "o", "r">> >>),                        \* pure v1: a,@b -nor
+             ListIn(<< <<"n","o","t"," ","@","a">> >>),                                            \* pure v2: not @a
+             ListIn(<< <<"(","@","a"," ","o","r"," ","@","b",")"," ","a","n","d"," ","n","o","r">> >>),  \* pure v2: (@a or @b) and nor
+             ListIn(<< <<"-","@","a"," ","a","n","d"," ","@","b">> >>) }                           \* mixed: -@a and @b
+HCons == {[proto |-> p, in |-> x] : p \in HProtos, x \in HInputs}
 
 \* ---------------------------------------------------------------- state space
-VARIABLES ph, g0, f, b, t
-vars == <<ph, g0, f, b, t>>
-Init == ph = "start" /\ g0 = <<>> /\ f = <<>> /\ b = 0 /\ t = TrueT
-Next == \/ ph = "start"   /\ ph' = "group"  /\ g0' \in Groups /\ UNCHANGED <<f, b, t>>
-        \/ ph = "group"   /\ ph' = "cnf"    /\ f' \in {<<g0>> \o r : r \in Rests} /\ UNCHANGED <<g0, b, t>>
-        \/ ph = "start"   /\ ph' = "bucket" /\ b' \in 1..NB /\ UNCHANGED <<g0, f, t>>
-        \/ ph = "bucket"  /\ ph' = "v2"     /\ t' \in {x \in AllTrees : Bucket(x) = b - 1} /\ UNCHANGED <<g0, f, b>>
+VARIABLES ph, g0, f, b, t, h
+vars == <<ph, g0, f, b, t, h>>
+Init == ph = "start" /\ g0 = <<>> /\ f = <<>> /\ b = 0 /\ t = TrueT /\ h = HistInit
+Next == \/ ph = "start"   /\ ph' = "group"  /\ g0' \in Groups /\ UNCHANGED <<f, b, t, h>>
+        \/ ph = "group"   /\ ph' = "cnf"    /\ f' \in {<<g0>> \o r : r \in Rests} /\ UNCHANGED <<g0, b, t, h>>
+        \/ ph = "start"   /\ ph' = "bucket" /\ b' \in 1..NB /\ UNCHANGED <<g0, f, t, h>>
+        \/ ph = "bucket"  /\ ph' = "v2"     /\ t' \in {x \in AllTrees : Bucket(x) = b - 1} /\ UNCHANGED <<g0, f, b, h>>
+        \* one more construction in the same process
+        \/ ph \in {"start", "hist"} /\ Len(h.cons) < HistLen /\ ph' = "hist"
+           /\ \E c \in HCons : h' = HistStep(h, c, SS)
+           /\ UNCHANGED <<g0, f, b, t>>
 Spec == Init /\ [][Next]_vars
 
 OnCnf(P) == ph = "cnf" => P
@@ -99,6 +125,13 @@ AutoOnMixed == OnCnf(HasNeg(f) => \A s \in MixedStyles : \A in \in MixedInputs(f
 \* which TagExpr_MC proves equal to the rendered tree)
 AutoV2(in) == AutoRun(in, SS) = V2Run(in, SS)
 AutoOnV2 == OnV2(\A in \in V2Inputs(t) : V2Parsed(in).ok /\ (IsPureV2(in) => (AutoV2(in) \/ KF_C08_3(in))))
+\* the '@' decoration never changes the v2 meaning, wherever it stands
+AtNeutral == OnV2(LET want == V2Run(TextIn(Full(t)), SS) IN
+                  want.exc = "" /\ V2Run(TextIn(FullAt(t)), SS) = want /\ V2Run(TextIn(MinAt(t)), SS) = want)
+\* the result of a construction depends only on its own arguments, whatever the process has constructed before
+HistoryIndependent ==
+   ph = "hist" => /\ h.cur = Eff(h.cons[Len(h.cons)].proto)
+                  /\ \A k \in DOMAIN h.cons : h.results[k] = RunAs(Eff(h.cons[k].proto), h.cons[k].in, SS)
 \* the three classes never make contradicting demands: only a text that means the same in both dialects is in two
 Classes == /\ OnCnf(LET want == Ok(CnfTT(f, SS)) IN \A in \in V1Inputs(f) : ~IsMixed(in) /\ (IsPureV2(in) => V2Run(in, SS) = want))
            /\ OnV2(\A in \in V2Inputs(t) : IsPureV2(in) => ~IsMixed(in))
@@ -125,7 +158,11 @@ Emit == /\ OnCnf(Hash(f) % EmitMod = 0 =>
                                           mixed |-> IF HasNeg(f) THEN [s \in 1..2 |-> MixedInputs(f, IF s = 1 THEN 1 ELSE 4)]
                                                     ELSE <<>>])>>))
         /\ OnV2(PrintT(<<"CASE", ToJson([kind |-> "v2", min |-> Min(t), full |-> Full(t), at |-> WithAt(t),
+                                         fullat |-> FullAt(t), minat |-> MinAt(t),
                                          tt |-> V2Run(TextIn(Min(t)), SS).tt])>>))
+        /\ (ph = "hist" /\ Len(h.cons) = HistLen) =>
+              PrintT(<<"CASE", ToJson([kind |-> "hist", cons |-> [k \in DOMAIN h.cons |->
+                                          [proto |-> h.cons[k].proto, terms |-> h.cons[k].in.terms]]])>>)
 
 \* ---------------------------------------------------------------- constants for the cfg files
 NamesQuick    == {<<"a">>, <<"b">>, <<"n","o","r">>}
